@@ -869,12 +869,24 @@ class CallGraph:
         """all Call nodes in the universe whose callee is spelled `...name(...)`"""
         if self._callsites is None:
             self._callsites = {}
-            for f in self.funcs.values():
-                for n in own_nodes(f.node):
-                    if isinstance(n, ast.Call):
-                        nm = n.func.id if isinstance(n.func, ast.Name) else (n.func.attr if isinstance(n.func, ast.Attribute) else None)
-                        if nm:
-                            self._callsites.setdefault(nm, []).append((f, n))
+            # one pass per module (cheaper than materialising the node list of every function of the package)
+            for m in self.repo.modules.values():
+                stack = [(m.tree, None)]
+                while stack:
+                    node, cur = stack.pop()
+                    for ch in ast.iter_child_nodes(node):
+                        c2 = cur
+                        if isinstance(ch, (ast.FunctionDef, ast.AsyncFunctionDef)):
+                            g = self._func_of_node.get(id(ch))
+                            if g is None and cur is not None:
+                                g = self.nested_of(cur).get(ch.name)
+                            c2 = g if g is not None else cur
+                        elif isinstance(ch, ast.Call) and cur is not None:
+                            fn = ch.func
+                            nm = fn.id if isinstance(fn, ast.Name) else (fn.attr if isinstance(fn, ast.Attribute) else None)
+                            if nm:
+                                self._callsites.setdefault(nm, []).append((cur, ch))
+                        stack.append((ch, c2))
         return self._callsites.get(name, [])
 
     def _callable_candidates(self, arg, g: Func, depth):
